@@ -165,7 +165,9 @@ chk("C03", "model_checking",
     "reproduce to 1e-12. u_to_euler and u_to_rod are run on every lattice matrix (PHI exactly 0/pi, axis-aligned, |r| up to 1000) and "
     "must return angles in range that rebuild the input to 1e-6; Rodrigues vectors up to |r| = 19 000 (179.994 degrees) must come back with "
     "sign and size, and vectors up to 6e7 (2e-6 degrees short of the half turn, formed with unbounded integers) must rebuild the matrix to "
-    "1e-6; builders are called with shifted and with unshifted angles (exact zero tilts included). Gimbal.tla enumerates the full product of magnitude classes for the "
+    "1e-6; builders are called with shifted and with unshifted angles (exact zero tilts included), with integer-typed angles; u_to_euler is "
+    "also run on products of rotations (R'.R, R'.R.Rz, R'.R.diag(1,-1,-1): entries 1 +- 1 ulp, rounding noise that is not sin PHI), which "
+    "exposed and now guards two repaired defects. Gimbal.tla enumerates the full product of magnitude classes for the "
     "near-gimbal band (PHI = 0/pi +- 1e-1..1e-13, phi near 0, pi, 2pi); there the property itself is the oracle on a matrix the "
     "harness builds from its own Rz.Rx.Rz product.",
     "Trusted: TLC integer algebra; atan2/cos/sin of the harness to produce float arguments; the near-gimbal band is covered by classes, not by exact rationals.",
